@@ -102,6 +102,28 @@ pub fn c15_configs(tier: Tier) -> Vec<LCfg> {
     out
 }
 
+/// C07 on the client layer: what the application is told about a handshake (every attempt ends in exactly one of Success /
+/// Failure, a connection that never got its CONNACK is a failure, not a disconnection), with user calls at any moment of it.
+pub fn c07_configs(tier: Tier) -> Vec<LCfg> {
+    let thorough = tier == Tier::Thorough;
+    let mut out = Vec::new();
+    for mode in [LoopMode::Tokio, LoopMode::Threaded] {
+        let mut c = LCfg::base(&format!("handshake-{:?}", mode), mode);
+        c.requests = vec![Req::Start, Req::Stop, Req::StopDisconnect, Req::Publish];
+        c.max_requests = if thorough { 4 } else { 2 };
+        c.max_attempts = if thorough { 4 } else { 3 };
+        c.budget = if thorough { 3 } else { 2 };
+        c.max_depth = if thorough { 40 } else { 30 };
+        out.push(c);
+    }
+    out
+}
+
+pub fn run_c07_part(report: &mut Report, tier: Tier) {
+    if !crate::vclock::self_test() { report.machinery_errors.push("virtual clock interposition is not effective".into()); return; }
+    explore_lifecycle_into(report, "C07", "c07", c07_configs(tier), tier, "client_");
+}
+
 pub fn run_c15_part(report: &mut Report, tier: Tier) {
     if !crate::vclock::self_test() { report.machinery_errors.push("virtual clock interposition is not effective".into()); return; }
     explore_lifecycle_into(report, "C15", "c15", c15_configs(tier), tier, "client_");
@@ -117,6 +139,7 @@ pub fn explore_lifecycle_into(report: &mut Report, property: &str, config_set: &
     let mut rows = Vec::new(); let mut samples = Vec::new(); let mut capped = Vec::new(); let mut determinism: Option<bool> = None; let mut max_depth = 0;
     for (index, cfg) in configs.iter().enumerate() {
         let cfg = Arc::new(cfg.clone());
+        crate::common::watchdog::set_context(property, tier.name(), json!({"kind": "lifecycle-history", "config_set": config_set, "config_index": index}));
         let result: ConfigResult<LEv> = explore::<LWorld>(&cfg, &limits, &pool);
         if determinism.is_none() && !result.capped && result.states < 200_000 {
             let again = explore::<LWorld>(&cfg, &limits, &small_pool);
@@ -156,7 +179,7 @@ pub fn explore_lifecycle_into(report: &mut Report, property: &str, config_set: &
 pub fn replay_file(value: &Value) -> i32 {
     let tier = if value["tier"].as_str() == Some("thorough") { Tier::Thorough } else { Tier::Quick };
     let index = value["config_index"].as_u64().unwrap_or(0) as usize;
-    let configs = if value["config_set"].as_str() == Some("c15") { c15_configs(tier) } else { c12_configs(tier) };
+    let configs = match value["config_set"].as_str() { Some("c15") => c15_configs(tier), Some("c07") => c07_configs(tier), _ => c12_configs(tier) };
     let Some(cfg) = configs.get(index) else { eprintln!("no such config"); return 2; };
     let cfg = Arc::new(cfg.clone());
     let history: Vec<LEv> = value["history"].as_array().map(|a| a.iter().filter_map(|e| LEv::from_text(e.as_str().unwrap_or(""))).collect()).unwrap_or_default();
